@@ -342,7 +342,19 @@ def register(reg):
                     ("connect_goes_to_the_proxy_origin", ("C11", "C10"), z3.And(F(c, url, "URL.scheme") == F(c, po, "Origin.scheme"), F(c, url, "URL.host") == F(c, po, "Origin.host"), z3.Not(c.new(url, "URL.port").none), c.new(url, "URL.port").val.t == F(c, po, "Origin.port"))),
                     ("connect_headers_are_host_accept_and_proxy_headers", ("C11",), e.coerce(st, d["headers"], "seq:hdr").t == ms(base, F(c, s, "TUN._proxy_headers"))),
                     ("connect_has_no_body", ("C11",), isinstance(d.get("content", NONE), VNone)),
-                    ("connect_carries_callers_timeouts", ("C16",), tv(d.get("extensions", NONE)) == ext),
+                ]
+                # from the property, on the CONNECT request as constructed (Request.__init__ applies the `target`
+                # extension of whatever mapping it is given - two sub-agents reported `CONNECT /secret/path` with the
+                # caller's `target` extension, which the obligation on the url ARGUMENT above could not see):
+                built = d["request"]
+                burl = c.new(built, "Request.url")
+                bext = F(c, built, "Request.extensions")
+                out += [
+                    ("connect_request_line_names_exactly_remote_host_port", ("C11", "C10"), F(c, burl, "URL.target") == target),
+                    ("connect_carries_callers_timeouts", ("C16",), z3.And(*[timeout_of(bext, k) == timeout_of(ext, k) for k in ("connect", "read", "write", "pool")])),
+                    ("connect_carries_callers_trace_hook", ("C16", "C11"), dget(bext, str_lit("trace"), none_val) == dget(ext, str_lit("trace"), none_val)),
+                    # TLS to an https proxy must name the proxy: the origin's `sni_hostname` override is not for this hop
+                    ("connect_does_not_carry_the_origins_sni_override", ("C10", "C11"), z3.Not(dhas(bext, str_lit("sni_hostname")))),
                 ]
             if ev.name == "ci.handle_request":
                 prior = [x for x in c.events("ci.handle_request") if x is not ev]
